@@ -564,12 +564,111 @@ func (s *echoSession) Read(ctx context.Context, fid p9p.Fid, p []byte, off int64
 }
 func (s *echoSession) Version() (int, string) { return p9p.DefaultMSize, "9P2000" }
 
+// c09Mixed: a Read, a Write and a Stat in flight at once on ONE fid, each
+// identifiable; S records what it received.
+type c09MixedState struct {
+	readOK, writeOK, statOK bool
+	done                    int
+	sawWrite                string
+	sawWriteOff             int64
+	errs                    []string
+}
+
+type mixedSession struct {
+	recSession
+	st *c09MixedState
+}
+
+func (s *mixedSession) Read(ctx context.Context, fid p9p.Fid, p []byte, off int64) (int, error) {
+	vsched.Yield("S.Read", 0)
+	return copy(p, fmt.Sprintf("read@%d", off)), nil
+}
+func (s *mixedSession) Write(ctx context.Context, fid p9p.Fid, p []byte, off int64) (int, error) {
+	vsched.Yield("S.Write", 0)
+	s.st.sawWrite, s.st.sawWriteOff = string(p), off
+	return len(p), nil
+}
+func (s *mixedSession) Stat(ctx context.Context, fid p9p.Fid) (p9p.Dir, error) {
+	vsched.Yield("S.Stat", 0)
+	return p9p.Dir{Name: fmt.Sprintf("stat-of-%d", fid), Length: uint64(fid)}, nil
+}
+func (s *mixedSession) Version() (int, string) { return p9p.DefaultMSize, "9P2000" }
+
+func c09MixedScenario(sync bool) *explore.Scenario {
+	name := "concurrent/mixed-methods-one-fid/" + map[bool]string{true: "sync-conn", false: "async-conn"}[sync]
+	return &explore.Scenario{
+		Name:  name,
+		Cache: true,
+		Body: func() any {
+			st := &c09MixedState{}
+			S := &mixedSession{st: st}
+			connect, closeAll := served(S, 0, sync)
+			vsched.Go("main", func() {
+				c, err := connect()
+				if err != nil {
+					return
+				}
+				ctx := context.Background()
+				c.Read(ctx, 77, make([]byte, 4), 0) // the fid has been used before
+				end := func() { st.done++; vsched.Yield("caller.end", 77) }
+				vsched.Go("reader", func() {
+					buf := make([]byte, 32)
+					n, err := c.Read(ctx, 77, buf, 1<<33)
+					st.readOK = err == nil && string(buf[:n]) == fmt.Sprintf("read@%d", int64(1)<<33)
+					if !st.readOK {
+						st.errs = append(st.errs, fmt.Sprintf("Read returned %q, %v", buf[:n], err))
+					}
+					end()
+				})
+				vsched.Go("writer", func() {
+					n, err := c.Write(ctx, 77, []byte("payload-of-the-write"), 5)
+					st.writeOK = err == nil && n == 20
+					if !st.writeOK {
+						st.errs = append(st.errs, fmt.Sprintf("Write returned %d, %v", n, err))
+					}
+					end()
+				})
+				vsched.Go("stat", func() {
+					d, err := c.Stat(ctx, 77)
+					st.statOK = err == nil && d.Name == "stat-of-77" && d.Length == 77
+					if !st.statOK {
+						st.errs = append(st.errs, fmt.Sprintf("Stat returned %v, %v", d, err))
+					}
+					end()
+				})
+				vsched.WaitFor("all-done", 77, func() bool { return st.done == 3 })
+				closeAll()
+			})
+			return st
+		},
+		Check: func(state any, e *vsched.Exec) (string, []explore.Finding) {
+			st := state.(*c09MixedState)
+			var fs []explore.Finding
+			if len(e.Panics) > 0 {
+				fs = append(fs, explore.Finding{Sig: "C09:panic", Msg: panicList(e)})
+			}
+			if st.done < 3 {
+				fs = append(fs, explore.Finding{Sig: "C09:concurrent-callers-never-complete:mixed", Msg: "mixed concurrent calls did not all complete; blocked: " + blockedList(e)})
+				return "stuck", fs
+			}
+			if len(st.errs) > 0 {
+				fs = append(fs, explore.Finding{Sig: "C09:concurrent-wrong-result:mixed", Msg: strings.Join(st.errs, "; ")})
+			}
+			if st.sawWrite != "payload-of-the-write" || st.sawWriteOff != 5 {
+				fs = append(fs, explore.Finding{Sig: "C09:concurrent-wrong-args:mixed", Msg: fmt.Sprintf("S received Write(%q, off %d)", st.sawWrite, st.sawWriteOff)})
+			}
+			return "ok", fs
+		},
+	}
+}
+
 func c09Scenarios() []*explore.Scenario {
 	out := []*explore.Scenario{c09SeqScenario("sequential/msize=default", 0), c09SeqScenario("sequential/msize=256", 256), c09SeqScenario("sequential/msize=24", 24)}
 	for n := 2; n <= 6; n++ {
 		out = append(out, c09ConcScenario(n, false), c09ConcScenario(n, true))
 	}
 	out = append(out, c09ConcScenarioF(2, false, true), c09ConcScenarioF(3, false, true))
+	out = append(out, c09MixedScenario(false), c09MixedScenario(true))
 	return out
 }
 
@@ -586,6 +685,9 @@ func c09(c *core.Ctx) {
 	}
 	for _, sc := range c09Scenarios()[3:] {
 		n := int(sc.Name[len("concurrent/")] - '0')
+		if strings.Contains(sc.Name, "mixed-methods") {
+			n = 3
+		}
 		sync := strings.Contains(sc.Name, "sync-conn") && !strings.Contains(sc.Name, "async")
 		switch {
 		case n >= 5 && sync:
